@@ -392,6 +392,15 @@ SameTopology(P, m) ==
   /\ P.edges = m.edges /\ P.faces = m.faces /\ P.cells = m.cells
 SameMesh(P, m) == SameTopology(P, m) /\ P.pos = m.pos /\ P.props = OvmbPropSet(m.props)
 
+(* the hexahedral kernel, with topology check on, re-orders the halffaces of a cell that is not in  *)
+(* its convention (C16): such a read is compared up to the order of the halffaces within each cell *)
+SameMeshUpToCellOrder(P, m) ==
+  /\ P.nv = m.nv /\ P.ne = m.ne /\ P.nf = m.nf /\ P.nc = m.nc
+  /\ P.edges = m.edges /\ P.faces = m.faces /\ P.pos = m.pos /\ P.props = OvmbPropSet(m.props)
+  /\ Len(P.cells) = Len(m.cells)
+  /\ \A i \in DOMAIN P.cells : Len(P.cells[i]) = Len(m.cells[i])
+                                /\ {P.cells[i][j] : j \in DOMAIN P.cells[i]} = {m.cells[i][j] : j \in DOMAIN m.cells[i]}
+
 (* C07: every stored handle designates an existing entity, every property has one element per entity *)
 KindCount(m, k) ==
   CASE k = "V" -> m.nv [] k = "E" -> m.ne [] k = "F" -> m.nf [] k = "C" -> m.nc
